@@ -155,6 +155,9 @@ class Tr:
                     self.err(m, f'{c.name}: class-level statement {type(m).__name__} (class attributes are not modelled)')
                 if m.name in SKIP_METHODS:
                     continue
+                if (c.name, m.name) not in WANT and m.name.startswith('__') and m.name.endswith('__'):
+                    # a special method changes what operators and built-ins do to every object of the class without any call naming it
+                    self.err(m, f'special method {c.name}.{m.name} is not part of the modelled interface')
                 if (c.name, m.name) not in WANT:
                     # a method the model does not know (nothing modelled can call it: a call of an unknown method is
                     # rejected where it occurs): left out
